@@ -29,7 +29,7 @@ ASSUMPTIONS = [
     '(receiver metadata-free or both functions None, union/union)',
 ]
 ANCHORS = ['Table.merge', 'Table._fast_merge', 'Table._union_id_order', 'Table._intersect_id_order', 'prefer_self']
-REQUIRED = ['table_subclass_operands', 'scale_many_operands', 'other_containers_of_tables', 'operand_list_reused', 'empty_axis_operand_cases', 'empty_axis_operand_merged', 'wide_universe_cases', 'fast_path_taken', 'general_path_taken', 'path_agreement_checked',
+REQUIRED = ['merged_with_itself', 'table_subclass_operands', 'scale_many_operands', 'other_containers_of_tables', 'operand_list_reused', 'empty_axis_operand_cases', 'empty_axis_operand_merged', 'wide_universe_cases', 'fast_path_taken', 'general_path_taken', 'path_agreement_checked',
             'md_tap_calls_checked', 'empty_intersection_refused',
             'list_form', 'overlap_partial', 'overlap_disjoint',
             'overlap_nested', 'overlap_identical', 'mode_union_union',
@@ -108,8 +108,51 @@ def canon(e):
     return {} if e is None else snap.canon_md([e], 1)[0]
 
 
+def self_operand_case(ctx, index, r):
+    """The receiver merged with itself (the same object as the other
+    operand): every cell doubles, ids and metadata stay, the table itself is
+    not changed."""
+    spec = gen.gen_spec(r, max_n=5, max_m=5,
+                        value_classes=['count', 'dyadic', 'neg', 'bigcount'])
+    t = gen.apply_layout(ctx.biom, spec, r.choice(gen.LAYOUTS), r)
+    before = snap.snap(t)
+    kw = {}
+    if r.random() < .5:
+        kw = {'sample': r.choice(['union', 'intersection']),
+              'observation': r.choice(['union', 'intersection'])}
+    desc = {'table': spec.describe(), 'self_operand': True, 'args': kw}
+    res = t.merge(t, **kw)
+    g = snap.snap(res)
+    if sorted(g.obs_ids) != sorted(spec.obs_ids) or \
+            sorted(g.samp_ids) != sorted(spec.samp_ids):
+        raise Violation('C09/self-operand-ids', 'merge of a table with '
+                        'itself has ids %r / %r; case=%r' %
+                        (g.obs_ids, g.samp_ids, desc))
+    for a, o in enumerate(g.obs_ids):
+        for b, x in enumerate(g.samp_ids):
+            want = 2 * spec.D[spec.obs_ids.index(o), spec.samp_ids.index(x)]
+            if not snap.bits_equal([g.D[a, b]], [want]):
+                raise Violation('C09/self-operand-value', '(%r,%r) is %r, '
+                                'twice the cell is %r; case=%r' %
+                                (o, x, float(g.D[a, b]), float(want), desc))
+    for ids_, md_, smd_ in ((g.obs_ids, g.obs_md, spec.obs_md),
+                            (g.samp_ids, g.samp_md, spec.samp_md)):
+        own = spec.obs_ids if ids_ is g.obs_ids else spec.samp_ids
+        want_md = snap.canon_md(smd_, len(own))
+        for k, i in enumerate(ids_):
+            if not snap.md_equal([md_[k]], [want_md[own.index(i)]]):
+                raise Violation('C09/self-operand-metadata', '%r carries %r, '
+                                'its metadata is %r; case=%r' %
+                                (i, md_[k], want_md[own.index(i)], desc))
+    oracles.unchanged(t, before, 'C09/operand-modified', desc)
+    ctx.count('merged_with_itself')
+    ctx.case(desc, bool(spec.D.any()))
+
+
 def run_case(ctx, index):
     r = ctx.rng(index)
+    if index % 29 == 11:
+        return self_operand_case(ctx, index, r)
     Table = ctx.biom.Table
     ids_cls = r.choice(['ascii', 'ascii', 'natsort', 'numeric', 'latin1',
                         'punct'])
